@@ -245,7 +245,7 @@ func init() {
 		Assumptions: []string{"the scripted connection delivers all bytes before the cut even when the ending is a reset (a real RST may discard unread data; then fewer requests are complete)"},
 		Setup: func(tier string, seed uint64) int {
 			c11.seed, c11.tier = seed, tier
-			return map[string]int{"quick": 240, "thorough": 6000}[tier]
+			return map[string]int{"quick": 240, "thorough": 20000}[tier]
 		},
 		Run: c11run,
 		Describe: func(idx int) any {
